@@ -55,6 +55,17 @@ impl Timer {
     self.cycle_count
   }
 
+  /// Phase of the 16-bit divider
+  #[cfg(feature = "verif")]
+  pub fn verif_cycle_count(&self) -> u32 {
+    self.cycle_count
+  }
+
+  #[cfg(feature = "verif")]
+  pub fn verif_set_cycle_count(&mut self, value: u32) {
+    self.cycle_count = value;
+  }
+
   pub fn set_counter(&mut self, value: u8) {
     self.counter = value;
   }
